@@ -23,6 +23,17 @@ func coTranslation(ctx *RunCtx) error {
 		{Name: "client", Files: map[string]string{"client.go": "package client\n\nimport \"example.com/tvmod/store\"\n\nfunc Use(k uint64) uint64 {\n\tr := store.Mk(k)\n\tvar s store.Record\n\ts = r\n\treturn s.Sum()\n}\n\nfunc Lit(k uint64) store.Record {\n\treturn store.Record{Key: k}\n}\n"}},
 		{Name: "other", Files: map[string]string{"other.go": "package other\n\ntype Record struct {\n\tA uint64\n}\n\nfunc Mk(a uint64) Record {\n\treturn Record{A: a}\n}\n"}},
 	}
+	// two packages with the same interface, struct and method names (their interface conversions
+	// get the same Coq name), and a diamond over the disk FFI reached only through a library
+	svc := func(name string, k string) *tv.Package {
+		return &tv.Package{Name: name, Files: map[string]string{name + ".go": "package " + name + "\n\ntype Service interface {\n\tHandle(x uint64) uint64\n}\n\ntype Server struct {\n\tBase uint64\n}\n\nfunc (s Server) Handle(x uint64) uint64 {\n\treturn s.Base + x + " + k + "\n}\n\nfunc call(s Service, x uint64) uint64 {\n\treturn s.Handle(x)\n}\n\nfunc Run(x uint64) uint64 {\n\ts := Server{Base: " + k + "}\n\treturn call(s, x)\n}\n"}}
+	}
+	pkgs = append(pkgs, svc("svca", "1"), svc("svcb", "2"), svc("svcc", "3"),
+		&tv.Package{Name: "dlib", Files: map[string]string{"dlib.go": "package dlib\n\nimport \"github.com/goose-lang/goose/machine/disk\"\n\nfunc First() disk.Block {\n\treturn disk.Read(0)\n}\n"}},
+		&tv.Package{Name: "dmid", Files: map[string]string{"dmid.go": "package dmid\n\nimport \"example.com/tvmod/dlib\"\n\nfunc Len() uint64 {\n\treturn uint64(len(dlib.First()))\n}\n"}},
+		&tv.Package{Name: "dapp1", Files: map[string]string{"dapp1.go": "package dapp1\n\nimport \"example.com/tvmod/dmid\"\n\nfunc One() uint64 {\n\treturn dmid.Len() + 1\n}\n"}},
+		&tv.Package{Name: "dapp2", Files: map[string]string{"dapp2.go": "package dapp2\n\nimport \"example.com/tvmod/dmid\"\n\nfunc Two() uint64 {\n\treturn dmid.Len() + 2\n}\n"}},
+	)
 	for _, p := range pkgs {
 		if err := d.WritePackage(p); err != nil {
 			return err
@@ -36,7 +47,9 @@ func coTranslation(ctx *RunCtx) error {
 		}
 		ref[p.Name] = out[p.Name]
 	}
-	configs := [][]string{{"store", "client"}, {"client", "store"}, {"store", "client", "other"}, {"other", "client", "store"}, {"client", "other"}}
+	configs := [][]string{{"store", "client"}, {"client", "store"}, {"store", "client", "other"}, {"other", "client", "store"}, {"client", "other"},
+		{"svca", "svcb"}, {"svcb", "svca", "svcc"}, {"svcc", "svca", "svcb", "store"},
+		{"dlib", "dmid", "dapp1", "dapp2"}, {"dapp2", "dapp1", "dmid", "dlib"}, {"dapp1", "dapp2"}, {"dmid", "dapp2"}}
 	reps := 3
 	if ctx.Tier == "thorough" {
 		reps = 15
